@@ -275,7 +275,7 @@ theorem sortOK_reg (asg : List String) (n : String) (k : RegKind) (t : CT)
 theorem sortOK_imm (hinv : C05.SInv c σ) (l : String) (s : Bool) (hwf : c.imms.contains l = true) :
     SortOK ms σ { il := .varl l, ty := { signed := s, width := 32, group := 1 }, kind := .plain } := by
   intro v hv _
-  have hl := hinv.imms l (by simpa using hwf)
+  obtain ⟨x, hl⟩ := hinv.imms l (by simpa using hwf)
   rw [evalPure] at hv
   simp only [hl, Except.ok.injEq] at hv
   exact ⟨_, hv.symm⟩
@@ -487,7 +487,7 @@ theorem typedState_SInv {c : Ctx} (hc : c.ok = true) : C05.SInv c (typedState c)
     have := mem_of_lookupS_map_const _ n c.imms v hv
     exact absurd this (C05.Ctx.ok_types hc hn).2.2
   · intro l hl
-    exact lookupS_map_const _ l c.imms hl
+    exact ⟨_, lookupS_map_const _ l c.imms hl⟩
   · intro ov _; rfl
 
 end Sem
